@@ -45,13 +45,15 @@ class ElemExec:
         self.max_inline = max_inline
 
     # ------------------------------------------------------------------
-    def function(self, name, scalars: dict | None = None, alias: dict | None = None, depth=0):
+    def function(self, name, scalars: dict | None = None, alias: dict | None = None, depth=0, cells: dict | None = None):
         """Execute function `name`.  scalars: parameter name -> sympy value; alias: array parameter -> array name
         seen by the caller.  Returns State."""
         fn = self.tu.functions.get(name)
         if fn is None:
             raise AnalysisError(f"{self.where}: function {name} not found")
         st = State(self, name, dict(scalars or {}), dict(alias or {}), depth)
+        for pn, pats in (cells or {}).items():
+            st.cells[pn] = list(pats)  # a local array of the caller handed to this callee: its cells are known
         for p in cast.params(fn):
             pn = p.get("name")
             if pn not in st.scalars and pn not in st.alias:
@@ -136,7 +138,9 @@ class State:
             else:
                 system.append(e_)
         if not unknowns:
-            return sub if all(sp.expand(c) == 0 for c in system) else (False if any(sp.expand(c).is_number and sp.expand(c) != 0 for c in system) else None)
+            # no loop variable left to choose: equal polynomials are the same cell, different ones another cell
+            # (generic sizes and per-call indices, see R13h)
+            return sub if all(sp.expand(c) == 0 for c in system) else False
         try:
             sol = sp.solve(system, unknowns, dict=True)
         except Exception:
@@ -222,7 +226,7 @@ class State:
                 return sp.Function(nm)(*[self.expr(a) for a in args])
             if nm in self.ex.tu.functions and self.depth < self.ex.max_inline:
                 callee = self.ex.tu.functions[nm]
-                sc, al = {}, {}
+                sc, al, shared = {}, {}, {}
                 for p, a in zip(cast.params(callee), args):
                     qt = cast.qtype(p)
                     if "*" in qt or "[" in qt:
@@ -230,14 +234,14 @@ class State:
                         if ua.get("kind") == "DeclRefExpr":
                             an = ua["referencedDecl"]["name"]
                             al[p["name"]] = self.alias.get(an, an)
-                            if an in self.cells:
+                            if an in self.cells and an not in self.alias:
                                 # local array handed to the callee: share its cells
-                                al[p["name"]] = an
+                                shared[p["name"]] = self.cells[an]
                         else:
                             raise AnalysisError(f"{self.ex.where}::{self.fname}: array argument '{cast.text(a)}' of {nm} is not a plain name")
                     else:
                         sc[p["name"]] = self.expr(a)
-                sub = self.ex.function(nm, sc, al, self.depth + 1)
+                sub = self.ex.function(nm, sc, al, self.depth + 1, cells=shared)
                 if sub.ret is None:
                     raise AnalysisError(f"{self.ex.where}::{self.fname}: inlined {nm} returns no value")
                 return sub.ret
@@ -404,6 +408,19 @@ class State:
                     if arm is not None and self.block([arm]):
                         return True
                     continue
+                # a condition over literal / unrolled values is decided on the spot
+                cc = _unwrap(ks[0])
+                if cc.get("kind") == "BinaryOperator" and cc.get("opcode") in ("==", "!=", "<", ">", "<=", ">="):
+                    try:
+                        a_, b_ = (self.expr(x) for x in cast.kids(cc))
+                    except AnalysisError:
+                        a_ = b_ = None
+                    if a_ is not None and a_.is_number and b_.is_number:
+                        truth = {"==": a_ == b_, "!=": a_ != b_, "<": a_ < b_, ">": a_ > b_, "<=": a_ <= b_, ">=": a_ >= b_}[cc.get("opcode")]
+                        arm = ks[1] if truth else (ks[2] if len(ks) > 2 else None)
+                        if arm is not None and self.block([arm]):
+                            return True
+                        continue
                 # data-dependent condition: indicator factors on the accumulations it encloses
                 then = ks[1]
                 els = ks[2] if len(ks) > 2 else None
